@@ -14,7 +14,7 @@ import z3
 
 from . import explore as X
 from . import sym as S
-from .mode import SymMode
+from .mode import NativeRNGMode, SymMode
 from . import ops as _ops  # noqa: F401  (registers the symbolic op table)
 from .tensor import SymTensor, lift, oarr, payload
 
@@ -117,6 +117,7 @@ class Ctx:
         self.calls = []
         self.claims = []  # native mode: (name, bool)
         self.drawn = {}
+        self.rng_draws = []  # (name, law, tensor) for every torch.rand*/randn* call made by the code under contract
 
     # -- inputs -----------------------------------------------------------------------------------
     def _native_vals(self, name, n, sampler):
@@ -208,6 +209,35 @@ class Ctx:
         flat = [float(v) for v in arr.reshape(-1)]
         return torch.tensor(flat, dtype=torch.float64).reshape(arr.shape).to(dtype)
 
+    # -- RNG contract stub ---------------------------------------------------------------------------
+    def draw(self, law, shape, dtype):
+        """contract of torch.rand*/randn*: fresh, independent symbols; uniform: 0 <= u < 1; normal: any real (mean 0, variance 1).
+        The draws are inputs of the obligation: quantified in symbolic mode, recorded in the witness, replayed natively."""
+        k = len(self.rng_draws)
+        name = f"rng{k}.{law}"
+        if dtype.is_complex:
+            fdt = torch.float32 if dtype == torch.complex64 else torch.float64
+            re = self._draw_real(name + ".re", law, shape, fdt, scale=Fraction(1, 2))
+            im = self._draw_real(name + ".im", law, shape, fdt, scale=Fraction(1, 2))
+            if self.mode == "sym":
+                t = SymTensor(re.re, im.re, dtype)
+            else:
+                t = torch.complex(re, im)
+            self.rng_draws.append((name, law + ":complex", t))
+            return t
+        t = self._draw_real(name, law, shape, dtype, scale=1)
+        self.rng_draws.append((name, law, t))
+        return t
+
+    def _draw_real(self, name, law, shape, dtype, scale=1):
+        if law == "uniform":
+            t = self.reals(name, shape, dtype, sampler=lambda r: r.random())
+            if self.mode == "sym":
+                for v in t.re.reshape(-1):
+                    self.ex.assume(z3.And(v.e >= 0, v.e < 1))
+            return t
+        return self.reals(name, shape, dtype, sampler=lambda r: r.gauss(0, 1))
+
     # -- preconditions ----------------------------------------------------------------------------
     def assume(self, cond):
         if self.mode == "sym":
@@ -224,10 +254,11 @@ class Ctx:
         k2 = _copy_arg(kw)
         try:
             if self.mode == "sym":
-                with SymMode():
+                with SymMode(rng=self):
                     v = fn(*a2, **k2)
             else:
-                v = fn(*a2, **k2)
+                with NativeRNGMode(self):
+                    v = fn(*a2, **k2)
             out = Outcome(value=v)
         except Exception as e:  # exceptions of the code under contract are outcomes
             out = Outcome(exc=e)
@@ -237,7 +268,7 @@ class Ctx:
 
     def sym(self):
         """context manager running arbitrary code (e.g. constructors that must see symbolic data) symbolically"""
-        return SymMode() if self.mode == "sym" else _Null()
+        return SymMode(rng=self) if self.mode == "sym" else NativeRNGMode(self)
 
     # -- postconditions -----------------------------------------------------------------------------
     def ensure(self, name, claim, note=""):
